@@ -145,7 +145,7 @@ def run_case(case):
     tower = (float(rng.uniform(-0.5, 1.5) * nx * dx), float(rng.uniform(-0.5, 1.5) * ny * dy))
     wa = float(rng.uniform(0, 2 * np.pi))
     wind = (float(3 * math.cos(wa)), float(3 * math.sin(wa)))
-    gkind = str(rng.choice(["contribution", "circular", "upwind", "crosswind", "sector", "random", "random_ties"]))
+    gkind = str(rng.choice(["contribution", "circular", "upwind", "crosswind", "sector", "random", "random_ties", "rank_map", "class_codes"]))
     if gkind == "contribution":
         g = U.source_area_contribution(f)
     elif gkind == "circular":
@@ -158,6 +158,15 @@ def run_case(case):
         g = U.source_area_sector(X, Y, tower, wind)
     elif gkind == "random":
         g = rng.permutation(n).reshape(f.shape).astype(float) + rng.random()
+    elif gkind == "rank_map":
+        # an integer-typed base field (ranks 0 .. n-1; signed and unsigned types, the rank 0 included)
+        gt_ = [np.int64, np.int32, np.uint32, np.uint16, np.uint64][int(rng.integers(5))]
+        g = rng.permutation(n).reshape(f.shape).astype(gt_)
+    elif gkind == "class_codes":
+        # a few integer class codes (many ties), code 0 present
+        gt_ = [np.uint8, np.int8, np.int64, np.uint16][int(rng.integers(4))]
+        g = rng.integers(0, max(2, min(100, n // 4)), size=f.shape).astype(gt_)
+        g.ravel()[int(rng.integers(n))] = 0
     else:
         g = rng.integers(0, max(2, n // 4), size=f.shape).astype(float)
     if g.shape != f.shape:
@@ -199,7 +208,7 @@ def run_case(case):
     tie_free = len(np.unique(g)) == n
     # strictly increasing transforms of g (kept only if they stay injective and order-preserving on this data)
     for name, T in (("affine", lambda a: 3.0 * a + 7.0), ("cube", lambda a: a**3), ("atan", lambda a: np.arctan(a / (1 + np.abs(g).max())))):
-        g2 = T(g)
+        g2 = T(g.astype(float) if g.dtype.kind in "iu" else g)
         if np.array_equal(np.argsort(g2.ravel(), kind="stable"), o) and len(np.unique(g2)) == len(np.unique(g)):
             r2 = bldfm.get_source_area(f, g2)
             counters["get_source_area_calls"] += 1
